@@ -3,6 +3,7 @@ package main
 import (
 	"errors"
 	"fmt"
+	goruntime "runtime"
 	"sync"
 	"sync/atomic"
 	"time"
@@ -149,7 +150,13 @@ func tableWorkload(e *env) {
 					}
 				})
 			case 3:
-				w.do("Table.Keys", func() { _ = tbl.Keys() })
+				w.do("Table.Keys", func() {
+					for _, id := range tbl.Keys() { // every element of the result is used
+						if sb := tbl.Lookup(id); sb != nil && sb.ID() != id {
+							panic("Table.Lookup returned another symbol")
+						}
+					}
+				})
 			case 4:
 				w.do("Table.AddLoadHook", func() { tbl.AddLoadHook(lhooks[w.rng.Intn(4)]) })
 			case 5:
@@ -233,7 +240,11 @@ func processWorkload(e *env) {
 				w.do("Process.Value", func() { _ = p.Value(k) })
 			case 5:
 				p := pick(w.rng)
-				w.do("Process.Keys", func() { _ = p.Keys() })
+				w.do("Process.Keys", func() {
+					for _, k := range p.Keys() {
+						_ = p.Value(k)
+					}
+				})
 			case 6:
 				p := pick(w.rng)
 				k := w.rng.Intn(8)
@@ -243,6 +254,7 @@ func processWorkload(e *env) {
 				w.do("Process.Status/Err/Times", func() {
 					_, _, _, _ = p.Status(), p.Err(), p.StartTime(), p.EndTime()
 					_, _ = p.ID(), p.Parent()
+					_, _ = p.Deadline()
 					select {
 					case <-p.Done():
 					default:
@@ -355,7 +367,12 @@ func localWorkload(e *env) {
 			case 5:
 				w.do("Local.RemoveStoreHook", func() { l.RemoveStoreHook(p, hooks[w.rng.Intn(len(hooks))]) })
 			case 6:
-				w.do("Local.Keys", func() { _ = l.Keys() })
+				w.do("Local.Keys", func() {
+					for _, q := range l.Keys() {
+						_, _ = q.Status(), q.ID()
+						_, _ = l.Load(q)
+					}
+				})
 			case 7:
 				w.do("Process.Exit", func() { p.Exit(nil) })
 				pool[i].CompareAndSwap(p, process.New())
@@ -458,7 +475,18 @@ func portWorkload(e *env) {
 				x := extra[w.rng.Intn(len(extra))]
 				w.do("OutPort.Unlink", func() { out.Unlink(x) })
 			case 9:
-				w.do("OutPort.Links", func() { _ = out.Links() })
+				w.do("OutPort.Links", func() {
+					n := 0
+					for round := 0; round < 2; round++ {
+						for _, x := range out.Links() { // read every element of the result
+							if x == in || x == extra[0] || x == extra[1] || x == extra[2] {
+								n++
+							}
+						}
+						goruntime.Gosched()
+					}
+					hookRuns.Add(int64(n))
+				})
 			case 10:
 				w.do("Process.Exit", func() { p.Exit(nil) })
 				pool[i].CompareAndSwap(p, process.New())
@@ -569,7 +597,13 @@ func writerWorkload(e *env) {
 			}
 			w.do("Writer.Write", func() { t.Write(packet.New(types.NewInt(w.rng.Intn(1000)))) })
 			if w.rng.Chance(1, 16) {
-				w.do("Writer.Links", func() { _ = wr.Links() })
+				w.do("Writer.Links", func() {
+					for _, r := range wr.Links() {
+						if r == shared {
+							hookRuns.Add(1)
+						}
+					}
+				})
 			}
 		}
 	})
@@ -595,7 +629,15 @@ func writerWorkload(e *env) {
 			case 1:
 				w.do("Writer.Unlink", func() { wr.Unlink(r) })
 			case 2:
-				w.do("Writer.Links", func() { _ = wr.Links() })
+				w.do("Writer.Links", func() {
+					ls := wr.Links()
+					goruntime.Gosched()
+					for _, r := range ls {
+						if r == shared {
+							hookRuns.Add(1)
+						}
+					}
+				})
 			case 3:
 				if nhooks.Add(1) <= 8 {
 					h := packet.HookFunc(func(*packet.Packet) { hookRuns.Add(1) })
@@ -637,6 +679,72 @@ func writerWorkload(e *env) {
 
 // ------------------------------------------------------------------ packet.Tracer (through real nodes)
 
+// readPackets reads every element of a slice an accessor returned – several times, with the
+// scheduler invited in between: the slice belongs to the caller now, whatever the object does next.
+func readPackets(ps []*packet.Packet) int {
+	n := 0
+	for round := 0; round < 3; round++ {
+		for _, p := range ps {
+			if p != nil {
+				_ = p.ID()
+				_ = p.Payload()
+				n++
+			}
+		}
+		goruntime.Gosched()
+	}
+	return n
+}
+
+// inflight is what a driver of a tracer publishes for the inspectors: the packets, reader and
+// writer it is currently pushing through the tracer.
+type inflight struct {
+	tr   *packet.Tracer
+	p, o *packet.Packet
+	r    *packet.Reader
+	w    *packet.Writer
+}
+
+func inspectTracer(w *worker, it *inflight, seen *atomic.Int64) {
+	tr := it.tr
+	if it.p != nil {
+		w.do("Tracer.Receives", func() { seen.Add(int64(readPackets(tr.Receives(it.p)))) })
+		w.do("Tracer.Links", func() {
+			seen.Add(int64(readPackets(tr.Links(it.p, nil))))
+			seen.Add(int64(readPackets(tr.Links(nil, it.p))))
+		})
+	}
+	if it.o != nil {
+		w.do("Tracer.Receives", func() { seen.Add(int64(readPackets(tr.Receives(it.o)))) })
+		w.do("Tracer.Links", func() {
+			seen.Add(int64(readPackets(tr.Links(nil, it.o))))
+			if it.p != nil {
+				seen.Add(int64(readPackets(tr.Links(it.p, it.o))))
+			}
+		})
+	}
+	if it.r != nil {
+		var reads []*packet.Packet
+		w.do("Tracer.Reads", func() { reads = tr.Reads(it.r); seen.Add(int64(readPackets(reads))) })
+		for _, p := range reads {
+			if p != nil {
+				w.do("Tracer.Receives", func() { seen.Add(int64(readPackets(tr.Receives(p)))) })
+				w.do("Tracer.Links", func() { seen.Add(int64(readPackets(tr.Links(p, nil)))) })
+			}
+		}
+	}
+	if it.w != nil {
+		var writes []*packet.Packet
+		w.do("Tracer.Writes", func() { writes = tr.Writes(it.w); seen.Add(int64(readPackets(writes))) })
+		for _, p := range writes {
+			if p != nil {
+				w.do("Tracer.Receives", func() { seen.Add(int64(readPackets(tr.Receives(p)))) })
+				w.do("Tracer.Links", func() { seen.Add(int64(readPackets(tr.Links(nil, p)))) })
+			}
+		}
+	}
+}
+
 func tracerWorkload(e *env) {
 	n1 := node.NewOneToOneNode(func(_ *process.Process, in *packet.Packet) (*packet.Packet, *packet.Packet) {
 		if s, ok := in.Payload().(types.String); ok && s.String() == "err" {
@@ -663,10 +771,19 @@ func tracerWorkload(e *env) {
 	n3.Out(node.PortOut).Link(sink)
 	entry := n1.In(node.PortIn)
 
+	// what the inspectors look at: a ring of recently published in-flight items
+	var ring [64]atomic.Pointer[inflight]
+	var ringN atomic.Int64
+	publish := func(it *inflight) { ring[int(ringN.Add(1))%len(ring)].Store(it) }
+	var procs [16]atomic.Pointer[process.Process]
+	var procN atomic.Int64
+	var inspected atomic.Int64
+
 	e.spawn(6, "pipeline", func(w *worker) {
 		for e.running() {
 			out := port.NewOut()
 			proc := process.New()
+			procs[int(procN.Add(1))%len(procs)].Store(proc)
 			var wr *packet.Writer
 			w.do("OutPort.Link+Open", func() {
 				out.Link(entry)
@@ -749,15 +866,21 @@ func tracerWorkload(e *env) {
 				if w.rng.Bool() {
 					w.do("Tracer.Dispatch", func() { tr.Dispatch(o, packet.HookFunc(func(*packet.Packet) { hookRuns.Add(1) })) })
 				}
+				publish(&inflight{tr: tr, p: p, o: o, r: r, w: wOut})
 				w.do("Tracer.Write", func() { tr.Write(wOut, o) })
 				w.do("Tracer.Reads/Writes/Receives/Links", func() {
-					_, _, _ = tr.Reads(r), tr.Writes(wOut), tr.Receives(p)
-					_ = tr.Links(p, nil)
-					_ = tr.Links(nil, o)
-					_ = tr.Links(p, o)
+					n := readPackets(tr.Reads(r)) + readPackets(tr.Writes(wOut)) + readPackets(tr.Receives(p))
+					n += readPackets(tr.Links(p, nil)) + readPackets(tr.Links(nil, o)) + readPackets(tr.Links(p, o))
+					inspected.Add(int64(n))
 				})
 			}
+			drop := w.rng.Chance(1, 8)
 			for i := 0; i < k; i++ {
+				if drop && i == k-1 {
+					// give up on the last answer: Drop answers what is still pending on the writer
+					w.do("Tracer.Drop", func() { tr.Drop(wOut) })
+					break
+				}
 				select {
 				case back, ok := <-wOut.Receive():
 					if ok {
@@ -781,6 +904,45 @@ func tracerWorkload(e *env) {
 			r.Close()
 			rOut.Close()
 			bgw.Wait()
+		}
+	})
+	// inspectors: call the read accessors of the shared tracer and of the nodes' tracers on what
+	// *other* goroutines are pushing through them right now, and read everything they return
+	nodeTracers := []*packet.Tracer{node.VerifTracer(n1), node.VerifTracer(n2), node.VerifTracer(n3)}
+	e.spawn(3, "inspector", func(w *worker) {
+		for e.running() {
+			if w.rng.Chance(2, 3) {
+				if it := ring[w.rng.Intn(len(ring))].Load(); it != nil {
+					inspectTracer(w, it, &inspected)
+				}
+				continue
+			}
+			proc := procs[w.rng.Intn(len(procs))].Load()
+			if proc == nil || proc.Status() == process.StatusTerminated {
+				goruntime.Gosched()
+				continue
+			}
+			// the readers/writers the nodes use for this process (Open returns the existing ones)
+			switch w.rng.Intn(3) {
+			case 0:
+				var r *packet.Reader
+				var wr *packet.Writer
+				w.do("InPort.Open", func() { r = n1.In(node.PortIn).Open(proc) })
+				w.do("OutPort.Open", func() { wr = n1.Out(node.PortOut).Open(proc) })
+				inspectTracer(w, &inflight{tr: nodeTracers[0], r: r, w: wr}, &inspected)
+			case 1:
+				var r *packet.Reader
+				var wr *packet.Writer
+				w.do("InPort.Open", func() { r = n2.In(node.PortIn).Open(proc) })
+				w.do("OutPort.Open", func() { wr = n2.Out(node.PortWithIndex(node.PortOut, w.rng.Intn(2))).Open(proc) })
+				inspectTracer(w, &inflight{tr: nodeTracers[1], r: r, w: wr}, &inspected)
+			default:
+				var r *packet.Reader
+				var wr *packet.Writer
+				w.do("InPort.Open", func() { r = n3.In(node.PortWithIndex(node.PortIn, w.rng.Intn(2))).Open(proc) })
+				w.do("OutPort.Open", func() { wr = n3.Out(node.PortOut).Open(proc) })
+				inspectTracer(w, &inflight{tr: nodeTracers[2], r: r, w: wr}, &inspected)
+			}
 		}
 	})
 	e.waitActive()
@@ -857,15 +1019,23 @@ func agentWorkload(e *env) {
 			case 0:
 				w.do("Agent.Processes+Frames", func() {
 					for _, p := range agent.Processes() {
-						for _, f := range agent.Frames(p.ID()) {
-							seen.Add(int64(readFrame(f)))
+						_ = p.Status()
+						fs := agent.Frames(p.ID())
+						for round := 0; round < 2; round++ {
+							for _, f := range fs {
+								seen.Add(int64(readFrame(f)))
+							}
+							goruntime.Gosched()
 						}
-						_ = agent.Process(p.ID())
+						if q := agent.Process(p.ID()); q != nil && q != p {
+							panic("Agent.Process returned another process")
+						}
 					}
 				})
 			case 1:
 				w.do("Agent.Symbols", func() {
 					for _, s := range agent.Symbols() {
+						_, _ = s.Name(), s.Namespace()
 						_ = agent.Symbol(s.ID())
 					}
 				})
